@@ -48,8 +48,10 @@ def replay_kernel(ctx, c, h):
     capt = int(c.get('cx_capt') or 24); capv = int(c.get('cx_capv') or 24); mode = int(c.get('cx_mode', 0))
     if h is not None:
         d = dict(x.split('=') for x in h.defines if '=' in x); capt = int(d.get('CAPT', capt)); capv = int(d.get('CAPV', capv))
-    if mode == 1: rc, out = run_replay(ctx, 'extractfw', hexs(data), int(c.get('cx_valsz', 0)), capt, capv)
-    else: rc, out = run_replay(ctx, 'extract', hexs(data), capt, capv)
+    kexe = ctx.native('codeckernel%d' % capv, ['replay/codec_kernel_replay.cpp'], flags=('-O1', '-g', '-fsanitize=address,undefined', '-fno-sanitize=alignment,vptr'),
+                      defines=['FIX8_MAX_FLD_LENGTH=%d' % capv], libs=['-L' + REPO + '/runtime/.libs', '-lfix8', '-Wl,-rpath,' + REPO + '/runtime/.libs'])
+    r = sh([kexe, 'fw' if mode == 1 else 'ext', hexs(data), str(int(c.get('cx_valsz', 0))), str(capt), str(capv)], env=dict(os.environ, ASAN_OPTIONS='detect_leaks=0'))
+    rc, out = r.returncode, r.stdout
     hit = sanitizer_hit(rc, out) or rc == 5
     what = 'extract%s(cap %d/%d) on %d bytes: %s' % ('_fixed_width' if mode else '_element', capt, capv, n, _short(out))
     if hit and capt == 24:
